@@ -15,10 +15,14 @@ MinOf3(a, b, c) == IF a <= b THEN (IF a <= c THEN a ELSE c) ELSE (IF b <= c THEN
    A reader whose script is exhausted reports end of file.
    Result: [io |-> TRUE, kind, id, reads] or [io |-> FALSE, pos (bytes delivered), reads];
    reads = number of read() calls made (the loop must not read again after an error / EOF) *)
-RECURSIVE Walk(_, _, _, _)
-Walk(script, i, pos, n) ==
+(* WalkB takes the length of the buffer the loop hands to read(): trace validation passes the length
+   the reader actually observed (the property does not fix a buffer size), the model MCStream its
+   constant BUF *)
+RECURSIVE WalkB(_, _, _, _, _)
+WalkB(script, i, pos, n, buf) ==
   IF i > Len(script) THEN [io |-> FALSE, pos |-> pos, reads |-> i]
   ELSE IF script[i][1] = "e" THEN [io |-> TRUE, kind |-> script[i][2], id |-> script[i][3], reads |-> i]
   ELSE IF script[i][1] = "z" \/ pos = n THEN [io |-> FALSE, pos |-> pos, reads |-> i]
-  ELSE Walk(script, i + 1, pos + MinOf3(script[i][2], BUF, n - pos), n)
+  ELSE WalkB(script, i + 1, pos + MinOf3(script[i][2], buf, n - pos), n, buf)
+Walk(script, i, pos, n) == WalkB(script, i, pos, n, BUF)
 =============================================================================
